@@ -79,6 +79,21 @@ impl Chooser {
         self.pick(n, label, true)
     }
 
+    /// True when the run so far contradicts the recorded prefix (a recorded choice was out of
+    /// range, or fewer decisions were made than the prefix holds).  Only meaningful after the run.
+    pub fn off_prefix(&self) -> bool {
+        let g = self.0.lock().unwrap_or_else(|e| e.into_inner());
+        g.diverged.is_some() || g.log.len() < g.prefix.len()
+    }
+
+    /// Forget the decisions of this run (keeps the prefix): lets a harness repeat an execution
+    /// whose outside world (threads not under the scheduler) was too slow to follow the prefix.
+    pub fn reset(&self) {
+        let mut g = self.0.lock().unwrap_or_else(|e| e.into_inner());
+        g.log.clear();
+        g.diverged = None;
+    }
+
     pub fn log(&self) -> Vec<Choice> {
         self.0.lock().unwrap_or_else(|e| e.into_inner()).log.clone()
     }
